@@ -359,6 +359,673 @@ def extract_drivers():
 
 HOOKS.append(extract_drivers)
 
+def strip_comments(t):
+    return re.sub(r"//[^\n]*", "", t)
+
+
+def match_arms(block):
+    """[(pattern text, body text)] of the top-level arms of a `match … { … }` block (text including its braces)."""
+    t = block[1:-1]
+    arms, i, n = [], 0, len(t)
+    start = 0
+    depth = 0
+    while i < n:
+        c = t[i]
+        if c in "([{":
+            depth += 1
+        elif c in ")]}":
+            depth -= 1
+        elif depth == 0 and t.startswith("=>", i):
+            pat = t[start:i].strip()
+            j = i + 2
+            while j < n and t[j].isspace():
+                j += 1
+            if j < n and t[j] == "{":
+                d, k = 0, j
+                while k < n:
+                    if t[k] == "{":
+                        d += 1
+                    elif t[k] == "}":
+                        d -= 1
+                        if d == 0:
+                            break
+                    k += 1
+                body = t[j : k + 1]
+                k += 1
+                while k < n and (t[k].isspace() or t[k] == ","):
+                    k += 1
+            else:
+                d, k = 0, j
+                while k < n:
+                    if t[k] in "([{":
+                        d += 1
+                    elif t[k] in ")]}":
+                        d -= 1
+                    elif t[k] == "," and d == 0:
+                        break
+                    k += 1
+                body = t[j:k]
+                k += 1
+            arms.append((pat, body))
+            i = k
+            start = k
+            continue
+        i += 1
+    return arms
+
+
+SRC_GUARD = r"if\s+frame\.id\(\)\.source_address\(\)\s*!=\s*self\.destination_address\s*\{\s*return\s+None\s*;?\s*\}"
+DA_GUARD = (r"if\s+let\s+Some\(destination_address\)\s*=\s*frame\.id\(\)\.destination_address\(\)\s*\{\s*"
+            r"if\s+destination_address\s*!=\s*self\.destination_address\s*&&\s*destination_address\s*!=\s*0xff\s*\{\s*return\s+None\s*;?\s*\}\s*\}")
+
+
+def extract_parse_tables():
+    """The parse function of every unit driver as a table: which parameter groups it has an arm for, and whether that arm
+    (or the function before its match) returns None for a frame whose source address is not the unit's."""
+    base = "glonax-runtime/src/driver/net/"
+    for fname, ty, lean in [("engine.rs", "EngineManagementSystem", "Engine"), ("hydraulic.rs", "HydraulicControlUnit", "Hydraulic"),
+                            ("vcu.rs", "VehicleControlUnit", "Vcu"), ("encoder.rs", "KueblerEncoder", "Encoder"),
+                            ("inclino.rs", "KueblerInclinometer", "Inclino"), ("ecu.rs", "ElectronicControlUnit", "Ecu")]:
+        rel = base + fname
+        imp = body_of(rel, r"impl\s+Parsable<\w+>\s+for\s+" + ty + r"\b", f"impl Parsable for {ty}")
+        imp = strip_comments(imp)
+        m = re.search(r"fn\s+parse\s*\(\s*&self\s*,\s*frame\s*:\s*&Frame\s*\)[^{]*\{", imp)
+        if not m:
+            raise ExtractError(f"{rel}: fn parse(&self, frame: &Frame) of {ty}")
+        mm = re.search(r"match\s+frame\.id\(\)\.pgn\(\)\s*\{", imp[m.end():])
+        if not mm:
+            raise ExtractError(f"{rel}: `match frame.id().pgn()` in {ty}::parse")
+        prefix = imp[m.end(): m.end() + mm.start()]
+        # the match block
+        k = m.end() + mm.end() - 1
+        d, j = 0, k
+        while j < len(imp):
+            if imp[j] == "{":
+                d += 1
+            elif imp[j] == "}":
+                d -= 1
+                if d == 0:
+                    break
+            j += 1
+        block = imp[k: j + 1]
+        da_guard = re.search(DA_GUARD, prefix) is not None
+        hoisted = re.search(SRC_GUARD, prefix) is not None
+        rows = []
+        for pat, body in match_arms(block):
+            for alt in [a.strip() for a in pat.split("|")]:
+                if alt == "_":
+                    continue
+                m1 = re.fullmatch(r"PGN::(?:ProprietaryB|Other)\(\s*([0-9_]+|[A-Z_][A-Z0-9_]*)\s*\)", alt)
+                m2 = re.fullmatch(r"PGN::([A-Z][A-Za-z0-9]*)", alt)
+                m3 = re.fullmatch(r"[A-Z_][A-Z0-9_]*", alt)
+                if m1:
+                    g = num(m1.group(1)) if m1.group(1)[0].isdigit() else const(rel, m1.group(1))
+                elif m2:
+                    g = pgn_number(m2.group(1))
+                elif m3:
+                    g = num(one(rel, r"const\s+" + alt + r"\s*:\s*PGN\s*=\s*PGN::ProprietaryB\(([0-9_]+)\)", f"const {alt}").group(1))
+                else:
+                    raise ExtractError(f"{rel}: arm pattern {alt!r} of {ty}::parse is not a parameter group")
+                rows.append((g, hoisted or re.search(SRC_GUARD, body) is not None))
+        if not rows:
+            raise ExtractError(f"{rel}: {ty}::parse has no parameter-group arms")
+        add("parseArms" + lean, "[" + ", ".join("(%d, %s)" % (g, "true" if b else "false") for g, b in rows) + "]",
+            f"{fname} {ty}::parse: (parameter group, arm refuses frames not sent by the unit's own address)", ty="List (Nat × Bool)")
+        add("parseDaGuard" + lean, "true" if da_guard else "false", f"{fname} {ty}::parse starts by refusing frames addressed to another node", ty="Bool")
+
+
+HOOKS.append(extract_parse_tables)
+
+
+def extract_responder():
+    """The request responder of NetworkAuthority::recv as a table: which requested groups have an arm, and the guard."""
+    rel = "glonax-runtime/src/service/authority.rs"
+    b = strip_comments(body_of(rel, r"async\s+fn\s+recv\s*\(\s*&mut\s+self\s*,\s*signal_tx", "NetworkAuthority::recv"))
+    m = re.search(r"if\s+frame\.id\(\)\.pgn\(\)\s*==\s*j1939::PGN::Request\s*\{", b)
+    if not m:
+        raise ExtractError(f"{rel}: `if frame.id().pgn() == j1939::PGN::Request` in recv")
+    # the block of that `if`
+    k = m.end() - 1
+    d, j = 0, k
+    while j < len(b):
+        if b[j] == "{":
+            d += 1
+        elif b[j] == "}":
+            d -= 1
+            if d == 0:
+                break
+        j += 1
+    blk = b[k: j + 1]
+    mm = re.search(r"match\s+(\w+)\s*\{", blk)
+    if not mm:
+        raise ExtractError(f"{rel}: match over the requested group in recv")
+    var = mm.group(1)
+    prefix = blk[:mm.start()]
+    guard = re.search(r"if\s+frame\.id\(\)\.destination_address\(\)\s*!=\s*Some\(self\.default_address\)\s*\{\s*return\s*;?\s*\}", prefix) is not None
+    if not re.search(r"let\s+" + var + r"\s*=\s*protocol::request_from_pdu\(frame\.pdu\(\)\)\s*;", prefix):
+        raise ExtractError(f"{rel}: `let {var} = protocol::request_from_pdu(frame.pdu());` before the match in recv")
+    k2 = mm.end() - 1
+    d, j = 0, k2
+    while j < len(blk):
+        if blk[j] == "{":
+            d += 1
+        elif blk[j] == "}":
+            d -= 1
+            if d == 0:
+                break
+        j += 1
+    served = []
+    for pat, body in match_arms(blk[k2: j + 1]):
+        for alt in [a.strip() for a in pat.split("|")]:
+            if alt == "_":
+                if body.strip() not in ("()", "{}", "{ }"):
+                    raise ExtractError(f"{rel}: the catch-all arm of the request responder is not empty: {body.strip()[:60]!r}")
+                continue
+            m2 = re.fullmatch(r"(?:j1939::)?PGN::([A-Z][A-Za-z0-9]*)", alt)
+            if not m2:
+                raise ExtractError(f"{rel}: responder arm {alt!r} is not a named parameter group")
+            served.append(pgn_number(m2.group(1)))
+    if not served:
+        raise ExtractError(f"{rel}: the request responder has no arms")
+    add("servedRequestPgns", "[" + ", ".join(map(str, served)) + "]", "authority.rs NetworkAuthority::recv: requested groups with an arm in the responder", ty="List Nat")
+    add("requestOwnAddressGuard", "true" if guard else "false", "authority.rs NetworkAuthority::recv: requests not addressed to the own address return before the responder", ty="Bool")
+
+
+HOOKS.append(extract_responder)
+
+
+ERROR_KINDS = {"UnexpectedEof": 1, "ConnectionReset": 2, "TimedOut": 3, "ConnectionAborted": 4, "BrokenPipe": 5, "InvalidData": 6,
+               "InvalidInput": 7, "WouldBlock": 8, "Interrupted": 9, "NotConnected": 10, "Other": 11}
+
+
+def brace_block(text, i):
+    """the balanced `{…}` block that starts at index i of text"""
+    d, j = 0, i
+    while j < len(text):
+        if text[j] == "{":
+            d += 1
+        elif text[j] == "}":
+            d -= 1
+            if d == 0:
+                return text[i: j + 1]
+        j += 1
+    raise ExtractError("unbalanced block")
+
+
+def extract_server():
+    """The shape of the client session in service/server.rs: the message types `parse` has an arm for (each reading its
+    payload with recv_packet of its own type, the catch-all draining it), the error kinds that end the session loop, that
+    nothing returns out of the session function before the fail-safe block, and that block itself."""
+    rel = "glonax-runtime/src/service/server.rs"
+    types = {}
+    for it in items:
+        if it[0].startswith("msgType"):
+            types[it[0][len("msgType"):]] = int(it[2])
+    b = strip_comments(body_of(rel, r"async\s+fn\s+parse\s*<", "UnixServer::parse"))
+    m = re.search(r"match\s+frame\.message\s*\{", b)
+    if not m:
+        raise ExtractError(f"{rel}: `match frame.message` in parse")
+    arms = match_arms(brace_block(b, m.end() - 1))
+    served, reads, skips = [], True, False
+    for pat, body in arms:
+        for alt in [a.strip() for a in pat.split("|")]:
+            if alt == "_":
+                skips = re.search(r"\.skip_payload\(\s*frame\.payload_length\s*\)", body) is not None
+                continue
+            mm = re.fullmatch(r"(?:[A-Za-z_:]+::)?([A-Z][A-Za-z0-9]*)::MESSAGE_TYPE", alt)
+            if not mm or mm.group(1) not in types:
+                raise ExtractError(f"{rel}: parse arm {alt!r} is not a known message type")
+            ty = mm.group(1)
+            served.append(types[ty])
+            if not re.search(r"\.recv_packet::<\s*(?:[A-Za-z_:]+::)?" + ty + r"\s*>\(\s*frame\.payload_length\s*\)", body):
+                reads = False
+    if not served:
+        raise ExtractError(f"{rel}: parse has no message-type arms")
+    add("serverArmTypes", "[" + ", ".join(map(str, served)) + "]", "server.rs UnixServer::parse: message types with an arm", ty="List Nat")
+    add("serverArmsReadOwnPayload", "true" if reads else "false", "server.rs parse: every arm reads its payload with recv_packet::<its own type>(frame.payload_length)", ty="Bool")
+    add("serverCatchAllDrains", "true" if skips else "false", "server.rs parse: the catch-all arm drains the payload with skip_payload(frame.payload_length)", ty="Bool")
+    # --- the session function
+    f = strip_comments(body_of(rel, r"async\s+fn\s+spawn_client_session\s*<", "spawn_client_session"))
+    ml = re.search(r"\bloop\s*\{", f)
+    if not ml:
+        raise ExtractError(f"{rel}: session loop")
+    loop = brace_block(f, ml.end() - 1)
+    after = f[ml.end() - 1 + len(loop):]
+    add("sessionReturnsBeforeFailsafe", len(re.findall(r"\breturn\b", f[: ml.end() - 1 + len(loop)])) + len(re.findall(r"\?\s*;", loop)),
+        "server.rs spawn_client_session: `return` statements and `?` operators up to the end of the session loop (each would skip the fail-safe block)")
+    ok = re.search(r"if\s+session\.is_failsafe\(\)\s*\{", after)
+    fs = False
+    if ok:
+        blk = brace_block(after, ok.end() - 1)
+        fs = re.search(r"command_tx\s*\.send\(\s*Object::Motion\(\s*Motion::StopAll\s*\)\s*\)", blk) is not None
+    add("sessionFailsafeAfterLoop", "true" if fs else "false", "server.rs spawn_client_session: after the loop, `if session.is_failsafe() { … command_tx.send(Object::Motion(Motion::StopAll)) … }`", ty="Bool")
+    ini = re.search(r"let\s+mut\s+session\s*=\s*Session::new\(\s*([^,]+?)\s*,\s*String::new\(\)\s*\)\s*;", f[: ml.start()])
+    if not ini:
+        raise ExtractError(f"{rel}: the placeholder registration `let mut session = Session::new(…, String::new());` before the loop")
+    add("sessionStartsUnregistered", "true" if ini.group(1).strip() in ("0", "0u8", "0x00") else "false",
+        "server.rs spawn_client_session: a connection starts with the placeholder registration Session::new(0, …) (no flag set)", ty="Bool")
+    mk = re.search(r"match\s+e\.kind\(\)\s*\{", loop)
+    if not mk:
+        raise ExtractError(f"{rel}: `match e.kind()` in the session loop")
+    ends, others_break = [], False
+    for pat, body in match_arms(brace_block(loop, mk.end() - 1)):
+        brk = re.search(r"\bbreak\b", body) is not None
+        for alt in [a.strip() for a in pat.split("|")]:
+            if alt == "_":
+                others_break = brk
+                continue
+            mm = re.fullmatch(r"(?:std::)?(?:io::)?ErrorKind::(\w+)", alt)
+            if not mm or mm.group(1) not in ERROR_KINDS:
+                raise ExtractError(f"{rel}: session loop error arm {alt!r}")
+            if brk:
+                ends.append(ERROR_KINDS[mm.group(1)])
+    add("sessionEndKinds", "[" + ", ".join(map(str, ends)) + "]",
+        "server.rs session loop: read-error kinds whose arm leaves the loop (1 UnexpectedEof, 2 ConnectionReset, 3 TimedOut, 4 ConnectionAborted, 5 BrokenPipe, 6 InvalidData, …)", ty="List Nat")
+    add("sessionOtherErrorsEnd", "true" if others_break else "false", "server.rs session loop: the catch-all read-error arm leaves the loop", ty="Bool")
+    # the signal side: only a CLOSED channel ends the session (a lagging subscriber does not)
+    sig = re.search(r"else\s+if\s+let\s+Err\(\s*(?:tokio::sync::broadcast::error::)?RecvError::Closed\s*\)\s*=\s*signal\s*\{", loop)
+    only_closed = False
+    if sig:
+        only_closed = re.search(r"\bbreak\b", brace_block(loop, sig.end() - 1)) is not None
+    n_break = len(re.findall(r"\bbreak\b", loop))
+    add("sessionSignalClosedEnds", "true" if only_closed else "false", "server.rs session loop: `else if let Err(RecvError::Closed) = signal { … break }`", ty="Bool")
+    add("sessionLoopBreaks", n_break, "server.rs session loop: number of `break` statements (one per ending read-error kind + one for the closed signal channel)")
+
+
+HOOKS.append(extract_server)
+
+
+def extract_command_task():
+    """The command task of Runtime::schedule_net_service: what each outcome of `command_rx.recv()` does."""
+    rel = "glonax-runtime/src/runtime/mod.rs"
+    f = strip_comments(body_of(rel, r"pub\s+fn\s+schedule_net_service\s*<", "schedule_net_service"))
+    m = re.search(r"match\s+command_rx\.recv\(\)\.await\s*\{", f)
+    if not m:
+        raise ExtractError(f"{rel}: `match command_rx.recv().await` in schedule_net_service")
+    ok = lag = closed = None
+    for pat, body in match_arms(brace_block(f, m.end() - 1)):
+        leaves = re.search(r"\b(break|return)\b", body) is not None
+        p1 = re.sub(r"\s+", "", pat)
+        if re.fullmatch(r"Ok\((\w+)\)", p1):
+            v = re.fullmatch(r"Ok\((\w+)\)", p1).group(1)
+            ok = (re.search(r"\.on_command\(\s*&" + v + r"\s*\)\s*\.await", body) is not None) and not leaves
+        elif re.fullmatch(r"Err\((?:\w+::)*RecvError::Lagged\(\w+\)\)", p1):
+            lag = not leaves
+        elif re.fullmatch(r"Err\((?:\w+::)*RecvError::Closed\)", p1):
+            closed = leaves
+        else:
+            raise ExtractError(f"{rel}: unexpected arm {pat.strip()!r} in the command task")
+    if ok is None or lag is None or closed is None:
+        raise ExtractError(f"{rel}: the command task does not have the three arms Ok / Lagged / Closed")
+    add("cmdTaskOkDispatches", "true" if ok else "false", "runtime/mod.rs command task: Ok(object) => on_command(&object).await and stays in the loop", ty="Bool")
+    add("cmdTaskLaggedContinues", "true" if lag else "false", "runtime/mod.rs command task: Err(Lagged) stays in the loop", ty="Bool")
+    add("cmdTaskClosedLeaves", "true" if closed else "false", "runtime/mod.rs command task: Err(Closed) leaves the loop", ty="Bool")
+    g = re.search(r"if\s+self\.shutdown\.1\.is_empty\(\)", f)
+    sub = re.search(r"let\s+mut\s+command_rx\s*=\s*self\.command_tx\.subscribe\(\)\s*;", f)
+    if not g:
+        raise ExtractError(f"{rel}: start-up guard of schedule_net_service")
+    add("cmdRxSubscribedAtScheduling", "true" if (sub and sub.start() < g.start()) else "false",
+        "runtime/mod.rs schedule_net_service: the command receiver is subscribed in the scheduling call itself (before the guard and the spawns)", ty="Bool")
+
+
+HOOKS.append(extract_command_task)
+
+
+def extract_governor_table():
+    """TRANSLATOR: Governor::next_state as a decision table, one row per match arm in source order.
+    Row = [signal state code | 9 for `_`, command state code | 9, 1 if the arm has an `if` guard,
+           1 if the arm starts with the expired-command early return, then for that return: rpm source, reshaped, state code,
+           then for the arm's value: rpm source, reshaped, state code]
+    rpm source: 0 self.rpm_idle, 1 command.rpm, 2 signal.rpm, 3 self.rpm_max, 7 anything else; absent parts are 0 0 0."""
+    rel = "glonax-runtime/src/driver/governor.rs"
+    states = dict(enum_discriminants("glonax-runtime/src/core/engine.rs", "EngineState"))
+    f = strip_comments(body_of(rel, r"pub\s+fn\s+next_state\s*\(", "Governor::next_state"))
+    m = re.search(r"match\s+\(\s*signal\.state\s*,\s*command\.state\s*\)\s*\{", f)
+    if not m:
+        raise ExtractError(f"{rel}: `match (signal.state, command.state)` in next_state")
+    blk = brace_block(f, m.end() - 1)
+    rest = (f[: m.start()] + f[m.end() - 1 + len(blk):]).strip()
+    # nothing but the match may compute the result
+    if re.sub(r"[\s{}]", "", rest) not in ("", ):
+        sig = re.sub(r"\s+", " ", rest)[:80]
+        if not re.fullmatch(r"\{?\s*\}?", rest):
+            raise ExtractError(f"{rel}: next_state does more than one match over the two states: {sig!r}")
+
+    def engine_lit(t, what):
+        mm = re.search(r"Engine\s*\{\s*rpm\s*:\s*([^,]+?)\s*,\s*state\s*:\s*EngineState::(\w+)\s*,\s*\.\.Default::default\(\)\s*,?\s*\}", t)
+        if not mm:
+            raise ExtractError(f"{rel}: {what}: not an `Engine {{ rpm: …, state: EngineState::…, ..Default::default() }}` literal")
+        e = re.sub(r"\s+", "", mm.group(1))
+        reshaped = 0
+        r1 = re.fullmatch(r"self\.reshape\((.*)\)", e)
+        if r1:
+            reshaped, e = 1, r1.group(1)
+        src = {"self.rpm_idle": 0, "command.rpm": 1, "signal.rpm": 2, "self.rpm_max": 3}.get(e, 7)
+        if mm.group(2) not in states:
+            raise ExtractError(f"{rel}: unknown engine state {mm.group(2)}")
+        return [src, reshaped, states[mm.group(2)]], mm.end()
+
+    def pat_code(p):
+        p = p.strip()
+        if p == "_":
+            return 9
+        mm = re.fullmatch(r"EngineState::(\w+)", p)
+        if not mm or mm.group(1) not in states:
+            raise ExtractError(f"{rel}: arm pattern component {p!r}")
+        return states[mm.group(1)]
+
+    rows = []
+    for pat, body in match_arms(blk):
+        guard = 0
+        g = re.search(r"\)\s*if\b", pat)
+        if g:
+            guard, pat = 1, pat[: g.start() + 1]
+        mm = re.fullmatch(r"\(\s*([^,]+),\s*([^,]+?)\s*\)", pat.strip())
+        if not mm:
+            raise ExtractError(f"{rel}: arm pattern {pat.strip()!r} is not a pair of states")
+        row = [pat_code(mm.group(1)), pat_code(mm.group(2)), guard]
+        t = body
+        to = re.search(r"if\s+let\s+Some\(instant\)\s*=\s*command_instant\s*\{\s*if\s+instant\.elapsed\(\)\s*>\s*self\.state_transition_timeout\s*\{\s*return\s+", t)
+        if to:
+            lit, end = engine_lit(t[to.end():], "expired-command return")
+            row += [1] + lit
+            tail = t[to.end() + end:]
+            mm2 = re.match(r"\s*;?\s*\}\s*\}", tail)
+            if not mm2:
+                raise ExtractError(f"{rel}: unexpected code after the expired-command return")
+            t = tail[mm2.end():]
+        else:
+            row += [0, 0, 0, 0]
+        lit, end = engine_lit(t, "arm value")
+        left = re.sub(r"[\s{}]", "", t[:re.search(r"Engine\s*\{", t).start()] + t[end:])
+        if left:
+            raise ExtractError(f"{rel}: arm {pat.strip()} contains more than the recognised shapes: {left[:60]!r}")
+        row += lit
+        rows.append(row)
+    if not rows:
+        raise ExtractError(f"{rel}: next_state has no arms")
+    add("governorTable", "[" + ", ".join("[" + ", ".join(map(str, r)) + "]" for r in rows) + "]",
+        "TRANSLATED from governor.rs Governor::next_state, one row per arm in source order: [signal state|9, command state|9, guard, has expired-return, (src, reshaped, state) of that return, (src, reshaped, state) of the value]; src 0 rpm_idle 1 command.rpm 2 signal.rpm 3 rpm_max 7 other",
+        ty="List (List Nat)")
+    # reshape itself
+    rb = strip_comments(body_of(rel, r"fn\s+reshape\s*\(", "Governor::reshape"))
+    ok = re.search(r"\{\s*(\w+)\.clamp\(\s*self\.rpm_idle\s*,\s*self\.rpm_max\s*\)\s*\}", rb) is not None
+    add("governorReshapeIsClamp", "true" if ok else "false", "governor.rs Governor::reshape is `x.clamp(self.rpm_idle, self.rpm_max)`", ty="Bool")
+
+
+HOOKS.append(extract_governor_table)
+
+
+def extract_emergency_sequence():
+    """TRANSLATOR: Director::command_emergency as the list of objects it sends, in source order.
+    Row = [kind, code, arg]: kind 0 Control (code = wire code of the variant, arg = 1/0 of its bool), 1 Motion (code = wire
+    type of the variant), 2 Engine (code 0 = Engine::shutdown())."""
+    rel = "glonax-runtime/src/service/director.rs"
+    f = strip_comments(body_of(rel, r"fn\s+command_emergency\s*\(", "command_emergency"))
+    ctrl = {}
+    for it in items:
+        if it[0].startswith("controlType"):
+            ctrl[it[0][len("controlType"):]] = int(it[2])
+    mot = {}
+    for it in items:
+        if it[0].startswith("motionType"):
+            mot[it[0][len("motionType"):]] = int(it[2])
+    binds = {}
+    rows = []
+    pos = 0
+    tok = re.compile(r"let\s+(\w+)\s*=\s*([^;]+);|command_tx\s*\.send\(\s*Object::(\w+)\(\s*([^()]*(?:\([^()]*\))?[^()]*)\)\s*\)")
+    for m in tok.finditer(f):
+        if m.group(1):
+            binds[m.group(1)] = m.group(2).strip()
+            continue
+        kind, arg = m.group(3), m.group(4).strip()
+        expr = binds.get(arg, arg)
+        expr = re.sub(r"\s+", "", expr)
+        if kind == "Control":
+            mm = re.fullmatch(r"Control::(\w+)\((true|false)\)", expr)
+            if not mm or mm.group(1) not in ctrl:
+                raise ExtractError(f"{rel}: command_emergency sends an unrecognised control {expr!r}")
+            rows.append([0, ctrl[mm.group(1)], 1 if mm.group(2) == "true" else 0])
+        elif kind == "Motion":
+            mm = re.fullmatch(r"Motion::(\w+)", expr)
+            if not mm or mm.group(1) not in mot:
+                raise ExtractError(f"{rel}: command_emergency sends an unrecognised motion {expr!r}")
+            rows.append([1, mot[mm.group(1)], 0])
+        elif kind == "Engine":
+            if expr != "Engine::shutdown()":
+                raise ExtractError(f"{rel}: command_emergency sends an unrecognised engine command {expr!r}")
+            rows.append([2, 0, 0])
+        else:
+            raise ExtractError(f"{rel}: command_emergency sends an Object::{kind}")
+    if len(rows) != len(re.findall(r"\.send\(", f)):
+        raise ExtractError(f"{rel}: command_emergency has a send the translator does not recognise")
+    if re.search(r"\b(return|break|if\s+(?!let\s+Err))", f):
+        raise ExtractError(f"{rel}: command_emergency is not a straight sequence of sends")
+    add("directorEmergencySeq", "[" + ", ".join("[%d, %d, %d]" % tuple(r) for r in rows) + "]",
+        "TRANSLATED from director.rs command_emergency: objects sent, in source order: [0, control code, on] | [1, motion type, 0] | [2, 0, 0] = Engine::shutdown()", ty="List (List Nat)")
+
+
+HOOKS.append(extract_emergency_sequence)
+
+
+def extract_hcu_shape():
+    """TRANSLATOR: the command side of HydraulicControlUnit as tables: which emitter each motion variant goes to in
+    `trigger` and in `tick`, and where the shared driver context is written."""
+    rel = "glonax-runtime/src/driver/net/hydraulic.rs"
+    mot = {}
+    for it in items:
+        if it[0].startswith("motionType"):
+            mot[it[0][len("motionType"):]] = int(it[2])
+    emit = {"lock": 0, "unlock": 1, "motion_reset": 2, "drive_straight": 3, "actuator_command": 4}
+    imp = strip_comments(body_of(rel, r"impl\s+J1939Unit\s+for\s+HydraulicControlUnit\b", "impl J1939Unit for HydraulicControlUnit"))
+
+    def fn_body(name):
+        m = re.search(r"fn\s+" + name + r"\s*\(", imp)
+        if not m:
+            raise ExtractError(f"{rel}: fn {name} of HydraulicControlUnit")
+        i = imp.find("{", m.end())
+        # skip the parameter list / return type: the body is the first block after the closing parenthesis of the signature
+        d, j = 0, m.end() - 1
+        while j < len(imp):
+            if imp[j] == "(":
+                d += 1
+            elif imp[j] == ")":
+                d -= 1
+                if d == 0:
+                    break
+            j += 1
+        i = imp.find("{", j)
+        return brace_block(imp, i)
+
+    def arms_of(body, scrut, what):
+        m = re.search(r"match\s+" + scrut + r"\s*\{", body)
+        if not m:
+            raise ExtractError(f"{rel}: `match {scrut}` in {what}")
+        rows = []
+        for pat, b in match_arms(brace_block(body, m.end() - 1)):
+            mm = re.fullmatch(r"Motion::(\w+)(?:\([^)]*\))?", pat.strip())
+            if not mm or mm.group(1) not in mot:
+                raise ExtractError(f"{rel}: {what}: arm {pat.strip()!r}")
+            calls = re.findall(r"self\.(\w+)\(", b)
+            calls = [c for c in calls if c in emit]
+            if len(calls) != 1 or not re.search(r"tx_queue\.(push|extend_from_slice)\(", b):
+                raise ExtractError(f"{rel}: {what}: arm {pat.strip()} does not push the frames of exactly one emitter")
+            rows.append([mot[mm.group(1)], emit[calls[0]]])
+        return rows, m.start()
+
+    trig = fn_body("trigger")
+    rows, mpos = arms_of(trig, r"motion", "trigger")
+    add("hcuTriggerArms", "[" + ", ".join("[%d, %d]" % tuple(r) for r in rows) + "]",
+        "TRANSLATED from hydraulic.rs trigger: [motion type, emitter] per arm (0 lock, 1 unlock, 2 motion_reset, 3 drive_straight, 4 actuator_command)", ty="List (List Nat)")
+    stores = [m.start() for m in re.finditer(r"ctx\.set_tx_last_message\(\s*ObjectMessage::command\(\s*object\.clone\(\)\s*\)\s*\)\s*;", trig)]
+    all_writes = len(re.findall(r"ctx\.set_\w+\(", trig))
+    gate = re.search(r"if\s+let\s+Object::Motion\(motion\)\s*=\s*object\s*\{", trig)
+    ok = False
+    if gate and len(stores) == 1 and all_writes == 1 and gate.end() < stores[0] < mpos:
+        between = trig[gate.end(): stores[0]]
+        # nothing conditional between the gate and the store
+        ok = re.search(r"\b(if|match|return|for|while)\b", between) is None and between.count("{") == between.count("}")
+    add("hcuTriggerStoresEveryMotionFirst", "true" if ok else "false",
+        "hydraulic.rs trigger: inside `if let Object::Motion(motion) = object`, unconditionally and before the encoding match, the one and only context write is ctx.set_tx_last_message(ObjectMessage::command(object.clone()))", ty="Bool")
+    tick = fn_body("tick")
+    rows2, _ = arms_of(tick, r"&motion_command", "tick")
+    add("hcuTickArms", "[" + ", ".join("[%d, %d]" % tuple(r) for r in rows2) + "]", "TRANSLATED from hydraulic.rs tick: [motion type, emitter] per arm", ty="List (List Nat)")
+    add("hcuTickContextWrites", len(re.findall(r"ctx\.(set_\w+|rx_mark)\(", tick)), "hydraulic.rs tick: writes to the shared driver context")
+    dflt = re.search(r"let\s+motion_command\s*=\s*\{\s*if\s+let\s+Some\(message\)\s*=\s*&ctx\.tx_last_message\(\)\s*\{\s*if\s+let\s+Object::Motion\(motion\)\s*=\s*&message\.object\s*\{\s*motion\.clone\(\)\s*\}\s*else\s*\{\s*Motion::StopAll\s*\}\s*\}\s*else\s*\{\s*Motion::StopAll\s*\}\s*\}\s*;", tick)
+    add("hcuTickReassertsStoredOrStopAll", "true" if dflt else "false", "hydraulic.rs tick: the command is the stored motion command, StopAll when nothing (or no motion) is stored", ty="Bool")
+    recv = fn_body("try_recv")
+    add("hcuRecvTxWrites", len(re.findall(r"ctx\.set_tx_\w+\(", recv)), "hydraulic.rs try_recv: writes to the TRANSMIT side of the shared driver context")
+
+
+HOOKS.append(extract_hcu_shape)
+
+
+def extract_volvo_shape():
+    """TRANSLATOR: the command side of VolvoD7E as tables: the emitter each governed state goes to in `trigger` and `tick`
+    ([engine state code, volvo state code of the speed-control frame]), the payload template of speed_control, how the
+    command is normalised and stored, and where the shared driver context is written."""
+    rel = "glonax-runtime/src/driver/net/volvo_ems.rs"
+    states = dict(enum_discriminants("glonax-runtime/src/core/engine.rs", "EngineState"))
+    vstates = dict(enum_discriminants(rel, "VolvoEngineState"))
+    whole = strip_comments(src(rel))
+    emit = {}
+    m = re.search(r"impl\s+(?:super::engine::)?Engine\s+for\s+VolvoD7E\s*\{", whole)
+    if not m:
+        raise ExtractError(f"{rel}: impl Engine for VolvoD7E")
+    eb = brace_block(whole, m.end() - 1)
+    for mm in re.finditer(r"fn\s+(request|start|stop)\s*\(\s*&self\s*,\s*(\w+)\s*:\s*u16\s*\)\s*->\s*Frame\s*\{\s*self\.speed_control\(\s*VolvoEngineState::(\w+)\s*,\s*(\w+)\s*\)\s*\}", eb):
+        if mm.group(2) != mm.group(4) or mm.group(3) not in vstates:
+            raise ExtractError(f"{rel}: emitter {mm.group(1)} does not pass its speed to speed_control")
+        emit[mm.group(1)] = vstates[mm.group(3)]
+    if set(emit) != {"request", "start", "stop"}:
+        raise ExtractError(f"{rel}: request/start/stop emitters of VolvoD7E")
+    imp = strip_comments(body_of(rel, r"impl\s+J1939Unit\s+for\s+VolvoD7E\b", "impl J1939Unit for VolvoD7E"))
+
+    def fn_body(name):
+        m = re.search(r"fn\s+" + name + r"\s*\(", imp)
+        if not m:
+            raise ExtractError(f"{rel}: fn {name} of VolvoD7E")
+        d, j = 0, m.end() - 1
+        while j < len(imp):
+            if imp[j] == "(":
+                d += 1
+            elif imp[j] == ")":
+                d -= 1
+                if d == 0:
+                    break
+            j += 1
+        return brace_block(imp, imp.find("{", j))
+
+    def arms_of(body, what):
+        m = re.search(r"match\s+governor_engine\.state\s*\{", body)
+        if not m:
+            raise ExtractError(f"{rel}: `match governor_engine.state` in {what}")
+        rows = []
+        for pat, b in match_arms(brace_block(body, m.end() - 1)):
+            mm = re.fullmatch(r"EngineState::(\w+)", pat.strip())
+            if not mm or mm.group(1) not in states:
+                raise ExtractError(f"{rel}: {what}: arm {pat.strip()!r}")
+            c = re.fullmatch(r"\{\s*tx_queue\.push\(\s*self\.(request|start|stop)\(\s*governor_engine\.rpm\s*\)\s*\)\s*;\s*\}", b.strip())
+            if not c:
+                raise ExtractError(f"{rel}: {what}: arm {pat.strip()} is not one push of one emitter at the governed speed")
+            rows.append([states[mm.group(1)], emit[c.group(1)]])
+        return rows
+
+    trig, tick = fn_body("trigger"), fn_body("tick")
+    add("volvoTriggerArms", "[" + ", ".join("[%d, %d]" % tuple(r) for r in arms_of(trig, "trigger")) + "]",
+        "TRANSLATED from volvo_ems.rs trigger: [governed engine state, state code of the speed-control frame] per arm", ty="List (List Nat)")
+    add("volvoTickArms", "[" + ", ".join("[%d, %d]" % tuple(r) for r in arms_of(tick, "tick")) + "]",
+        "TRANSLATED from volvo_ems.rs tick: [governed engine state, state code of the speed-control frame] per arm", ty="List (List Nat)")
+    norm = re.search(r"let\s+engine_command\s*=\s*\{\s*if\s+engine_command\.rpm\s*>\s*0\s*\{\s*crate::core::Engine::from_rpm\(engine_command\.rpm\)\s*\}\s*else\s*\{\s*crate::core::Engine::shutdown\(\)\s*\}\s*\}\s*;", trig)
+    store = re.search(r"ctx\.set_tx_last_message\(\s*ObjectMessage::command\(\s*Object::Engine\(engine_command\)\s*\)\s*\)\s*;", trig)
+    gov = re.search(r"\.next_state\(\s*&engine_signal\s*,\s*&engine_command\s*,\s*None\s*\)", trig)
+    ok = bool(norm and store and gov and norm.end() <= store.start() < gov.start()) and len(re.findall(r"ctx\.set_\w+\(", trig)) == 1
+    add("volvoTriggerStoresNormalisedCommand", "true" if ok else "false",
+        "volvo_ems.rs trigger: the command is normalised (rpm > 0 ? from_rpm : shutdown), stored with set_tx_last_message (the only context write) and then governed with no command age", ty="Bool")
+    add("volvoTickContextWrites", len(re.findall(r"ctx\.(set_\w+|rx_mark)\(", tick)), "volvo_ems.rs tick: writes to the shared driver context")
+    tgov = re.search(r"\.next_state\(\s*&engine_signal\s*,\s*&engine_command\.0\s*,\s*engine_command\.1\s*\)", tick)
+    tcmd = re.search(r"let\s+engine_command\s*=\s*\{\s*if\s+let\s+Some\(message\)\s*=\s*&ctx\.tx_last_message\(\)\s*\{\s*if\s+let\s+Object::Engine\(engine\)\s*=\s*message\.object\s*\{\s*\(engine\s*,\s*Some\(message\.timestamp\)\)\s*\}\s*else\s*\{\s*\(engine_signal\s*,\s*None\)\s*\}\s*\}\s*else\s*\{\s*\(engine_signal\s*,\s*None\)\s*\}\s*\}\s*;", tick)
+    add("volvoTickGovernsStoredCommandWithItsAge", "true" if (tgov and tcmd) else "false",
+        "volvo_ems.rs tick: governs the stored engine command with its timestamp; with nothing stored, the reported engine with no age", ty="Bool")
+    # payload template of speed_control
+    sc = body_of(rel, r"pub\s+fn\s+speed_control\s*\(", "speed_control")
+    sc = strip_comments(sc)
+    t = re.search(r"\.copy_from_slice\(\s*&\[\s*([^\]]+)\]\s*\)", sc)
+    if not t:
+        raise ExtractError(f"{rel}: payload of speed_control")
+    parts = [re.sub(r"\s+", "", x) for x in t.group(1).split(",") if x.strip()]
+    tmpl = []
+    for x in parts:
+        if x == "stateasu8":
+            tmpl.append(256)
+        elif x == "(rpmasf32/10.0)asu8":
+            tmpl.append(257)
+        else:
+            try:
+                tmpl.append(num(x))
+            except ValueError:
+                raise ExtractError(f"{rel}: speed_control payload byte {x!r}")
+    add("volvoPayloadTemplate", "[" + ", ".join(map(str, tmpl)) + "]", "TRANSLATED from volvo_ems.rs speed_control: payload bytes (256 = `state as u8`, 257 = `(rpm as f32 / 10.0) as u8`)", ty="List Nat")
+
+
+HOOKS.append(extract_volvo_shape)
+
+
+def extract_director_decision():
+    """TRANSLATOR: the decision of Director::wait_io_sub as a table, one row per (state of an arm pattern):
+    [state discriminant, gating operation (1 Supervised, 2 Autonomous, 0 none, 9 other), action
+     (0 command_emergency, 1 send Motion::StopAll, 2 send the computed motion, 8 nothing, 9 other)]; plus the elected state
+    (`max` over the map, Nominal when empty) and the operation the director is built with."""
+    rel = "glonax-runtime/src/service/director.rs"
+    st = dict(enum_discriminants(rel, "DirectorLocslState"))
+    f = strip_comments(body_of(rel, r"async\s+fn\s+wait_io_sub\s*\(", "Director::wait_io_sub"))
+    m = re.search(r"match\s+max_state\s*\{", f)
+    if not m:
+        raise ExtractError(f"{rel}: `match max_state` in wait_io_sub")
+    elect = re.search(r"let\s+max_state\s*=\s*self\s*\.state\s*\.values\(\)\s*\.copied\(\)\s*\.max\(\)\s*\.unwrap_or\(\s*DirectorLocslState::Nominal\s*\)\s*;", f)
+    add("directorElectsMaxOrNominal", "true" if elect else "false", "director.rs wait_io_sub: the decision is taken on the maximum verdict of the map, Nominal when it is empty", ty="Bool")
+    ops = {"Supervised": 1, "Autonomous": 2}
+    rows = []
+    for pat, body in match_arms(brace_block(f, m.end() - 1)):
+        sends = len(re.findall(r"command_tx\s*\.send\(|command_emergency\(", body))
+        gate, action = 0, 8
+        g = re.search(r"if\s+self\.operation\s*==\s*DirectorOperation::(\w+)([^{]*)\{", body)
+        if sends:
+            if not g or g.group(1) not in ops:
+                gate = 9 if g else 0
+            else:
+                gate = ops[g.group(1)]
+            gb = brace_block(body, g.end() - 1) if g else body
+            outside = len(re.findall(r"command_tx\s*\.send\(|command_emergency\(", body.replace(gb, "")))
+            if outside:
+                gate = 0
+            if re.search(r"Self::command_emergency\(\s*&command_tx\s*\)", gb) and sends == 1:
+                action = 0
+            elif re.search(r"let\s+motion_command\s*=\s*Motion::StopAll\s*;", gb) and sends == 1:
+                action = 1
+            elif re.search(r"let\s+motion_command\s*=\s*Motion::from_iter\(actuator_motion\)\s*;", gb) and sends == 1:
+                action = 2
+            else:
+                action = 9
+        for alt in [a.strip() for a in pat.split("|")]:
+            mm = re.fullmatch(r"DirectorLocslState::(\w+)", alt)
+            if not mm or mm.group(1) not in st:
+                raise ExtractError(f"{rel}: wait_io_sub arm {alt!r}")
+            rows.append([st[mm.group(1)], gate, action])
+    add("directorDecisionArms", "[" + ", ".join("[%d, %d, %d]" % tuple(r) for r in rows) + "]",
+        "TRANSLATED from director.rs wait_io_sub: [verdict, gating operation (1 Supervised, 2 Autonomous, 0 ungated), action (0 emergency sequence, 1 StopAll, 2 computed motion, 8 nothing, 9 other)]", ty="List (List Nat)")
+    for k, v in st.items():
+        add("directorVerdict" + k, v, "director.rs enum DirectorLocslState")
+    n = strip_comments(src(rel))
+    mo = re.findall(r"operation\s*:\s*DirectorOperation::(\w+)", n)
+    if len(mo) != 1:
+        raise ExtractError(f"{rel}: the operation the director is constructed with")
+    add("directorBuiltSupervised", "true" if mo[0] == "Supervised" else "false", "director.rs Director::new: operation: DirectorOperation::Supervised", ty="Bool")
+
+
+HOOKS.append(extract_director_decision)
+
+
 def f32(x):
     import struct
     return struct.unpack("<f", struct.pack("<f", x))[0]
